@@ -33,6 +33,10 @@ func IOCodec(rwc io.ReadWriteCloser) *jsonCodec {
 type jsonCodec struct {
 	rwc        io.ReadWriteCloser
 	remoteAddr string
+	// dec is kept across reads: a json.Decoder reads ahead, so whatever it
+	// buffered beyond one message (the beginning of the next ones) would be
+	// lost with a new decoder per message.
+	dec *json.Decoder
 }
 
 func (codec *jsonCodec) RemoteAddr() string {
@@ -40,8 +44,11 @@ func (codec *jsonCodec) RemoteAddr() string {
 }
 
 func (codec *jsonCodec) ReadMessage() (*Message, error) {
+	if codec.dec == nil {
+		codec.dec = json.NewDecoder(codec.rwc)
+	}
 	var msg Message
-	err := json.NewDecoder(codec.rwc).Decode(&msg)
+	err := codec.dec.Decode(&msg)
 	return &msg, err
 }
 
